@@ -342,13 +342,17 @@ func c20RequestCases() []c20Case {
 		cs = append(cs, c20Case{Kind: "getdata:" + p.Name, Desc: "GetData / Subscribe path=" + p.Name, Run: func(env *c20Env) string {
 			w := env.world(WorldOpts{})
 			defer w.Close()
-			_ = w.PreloadStore(0, []Leaf{leaf("h", "sys", "hostname"), leaf("d", "if", e1, "descr"), leaf("e1", "if", e1, "name")})
+			_ = w.PreloadStore(0, []Leaf{leaf("h", "sys", "hostname"), leaf("d", "if", e1, "descr"), leaf("e1", "if", e1, "name"), leafEmpty("sys", "banner"), leaf("t", "sys", "banner", "text")})
 			s := newServer(w)
 			r := ""
 			for _, enc := range []sdcpb.Encoding{sdcpb.Encoding_STRING, sdcpb.Encoding_JSON, sdcpb.Encoding_JSON_IETF, sdcpb.Encoding_PROTO, sdcpb.Encoding(99)} {
 				for _, ty := range []sdcpb.Type{sdcpb.Type_MAIN, sdcpb.Type_INTENDED, sdcpb.Type_CANDIDATE, sdcpb.Type(77)} {
 					st := &getDataStream{ctx: peerCtx()}
 					err := s.GetData(&sdcpb.GetDataRequest{Name: w.Name, Path: []*sdcpb.Path{p.P}, Encoding: enc, Datastore: &sdcpb.DataStore{Type: ty, Owner: "A", Priority: -3}}, st)
+					r += errStr(err)[:1]
+					// the same path together with paths above and below stored nodes (a presence container is stored like a leaf)
+					st2 := &getDataStream{ctx: peerCtx()}
+					err = s.GetData(&sdcpb.GetDataRequest{Name: w.Name, Path: []*sdcpb.Path{P("sys", "banner", "text").Sdcpb(), p.P, P("sys").Sdcpb(), P("if", e1, "descr").Sdcpb()}, Encoding: enc, Datastore: &sdcpb.DataStore{Type: ty}}, st2)
 					r += errStr(err)[:1]
 				}
 			}
